@@ -242,6 +242,10 @@ func genC02(e *emitter, tier string, seed int64) {
 		"-9223372036854775808", "-9223372036854775808 + 1", "-9223372036854775807", "-9223372036854775807 - 1", "-0", "-0.0", "+1.5", "- 1.5", "-9223372036854775810.5", "-9223372036854776832", "- - 5", "-+-5", "+-9223372036854775808.0 % 2"} {
 		emitProg(e, "p("+lit+")\nx = "+lit+"\np(x, x / 2, x == "+lit+")\n", basePt, true, "signed-literals")
 	}
+	// (round 7) membership is not numeric equality: an element of another type is another value
+	for _, src := range membershipProgs() {
+		emitProg(e, src, basePt, true, "membership-types")
+	}
 	// random expression trees up to size 12
 	N := 3000
 	if tier == "thorough" {
@@ -251,6 +255,20 @@ func genC02(e *emitter, tier string, seed int64) {
 		src := "p(" + randExpr(rng, ops, 3) + ")\n"
 		emitProg(e, src, basePt, true, "tree")
 	}
+}
+
+// x in list, x in map, x in string for values and elements of every type (also numerically equal ones of
+// different types)
+func membershipProgs() []string {
+	r := []string{}
+	xs := []string{"1", "1.0", "0", "0.0", "true", "false", "nil", `"1"`, `"a"`, "3", "1.5", "[1]", `{"a": 1}`}
+	cs := []string{"[1.0]", "[3, 1]", "[1]", "[true]", "[0]", `[false, "0"]`, `["1"]`, "[nil]", "[1.5, 1]", "[0.0, 3.0]", "[[1]]", `[{"a": 1}]`, `{"1": 1, "a": nil}`, `"a1true"`, "[]", "{}", `""`}
+	for _, x := range xs {
+		for _, c := range cs {
+			r = append(r, fmt.Sprintf("p(pr(%s) in pr(%s))\nx = %s\nc = %s\nif x in c {\n  p(\"yes\")\n} else {\n  p(\"no\")\n}\n", x, c, x, c))
+		}
+	}
+	return r
 }
 
 func randExpr(rng *rand.Rand, ops []operand, depth int) string {
